@@ -11,6 +11,9 @@ Line-protocol driver for the C20 model.
 * `listeners` — stream listeners that reach `Accept` / stay parked on the fresh limiter.
 * `lim stop resume n` — the same for an explicit limiter and `n` listeners.
 * `build` — the start-up constructors: `ok` or `panic …`.
+* `env kvUrl rlUrl consulUrl kvSize redisAddr redisIdle maxActive maxIdle` — the environment checks that depend
+  on the last configuration (`absent|bad|good` for URLs): `ok` or `err VAR[;VAR…]`; `envbuild` — the builder
+  steps that dereference those variables: `ok` or `panic …`.
 * `handle is4 tcp respLen` — one query: `served w`, `stuck path` or `panic …`.
 -/
 namespace Agd.Driver.C20
@@ -19,6 +22,14 @@ open Agd.Config Agd.Driver
 structure S where
   c : Config := {}
   parseOk : Bool := true
+  e : Env := {}
+
+def url! (s : String) : UrlSt := if s == "good" then .good else if s == "bad" then .badScheme else .absent
+
+def showEnvPanic : EnvPanic → String
+  | .kvLru => "panic kv-lru"
+  | .nilUrl v => "panic nil-url " ++ v.name
+  | .kvEnum => "panic kv-enum"
 
 /-- Result of applying one token. -/
 inductive Upd | ok (c : Config) | range | unknown
@@ -199,6 +210,7 @@ def showPanic : Panic → String
   | .badPrefix => "panic bad-prefix"
   | .makeslice => "panic makeslice"
   | .makechan => "panic makechan"
+  | .chanAlloc => "panic chan-alloc"
 
 def showCache : CacheType → String
   | .none => "none" | .simple => "simple" | .ecs => "ecs"
@@ -231,6 +243,17 @@ def step (s : S) : List String → S × String
   | ["lim", stop, resume, n] =>
     let r := limStart (nat! stop) (nat! resume) (nat! n)
     (s, s!"{r.1} {r.2}")
+  | ["env", kvUrl, rlUrl, consulUrl, kvSize, redisAddr, redisIdle, maxActive, maxIdle] =>
+    let e : Env := { kvUrl := url! kvUrl, rlUrl := url! rlUrl, consulUrl := url! consulUrl, kvSize := int! kvSize,
+                     redisAddr := bool! redisAddr, redisIdle := int! redisIdle, redisMaxActive := int! maxActive,
+                     redisMaxIdle := int! maxIdle }
+    match envCheck s.c e with
+    | [] => ({ s with e := e }, "ok")
+    | vs => ({ s with e := e }, "err " ++ ";".intercalate (vs.map EnvVar.name))
+  | ["envbuild"] =>
+    match envBuild s.c s.e with
+    | .ok _ => (s, "ok")
+    | .error p => (s, showEnvPanic p)
   | ["build"] =>
     match build s.c with
     | .ok _ => (s, "ok")
